@@ -22,6 +22,7 @@ type ScanRec struct {
 	Pos     datafile.DataPos
 	VLen    int
 	VHash   uint64
+	Frame   int64 // bytes the record occupies according to the format reference (independent of the reader's Size)
 }
 
 // FileScan is the decoded content of one data file.
@@ -115,9 +116,11 @@ func ScanDataFile(path string, logical int64, scratch string) *FileScan {
 			}
 			break
 		}
+		start := int64(pos.BlockID)*BlockSize + int64(pos.Offset)
+		_, _, frame, _ := FrameLayout(start, EncLen(len(rec.Key), len(rec.Value), rec.BatchID))
 		fs.Records = append(fs.Records, ScanRec{
 			Type: rec.Type, Key: string(rec.Key), BatchID: rec.BatchID, Pos: *pos,
-			VLen: len(rec.Value), VHash: Hash64(rec.Value),
+			VLen: len(rec.Value), VHash: Hash64(rec.Value), Frame: frame,
 		})
 		fs.End = int64(pos.BlockID)*BlockSize + int64(pos.Offset) + int64(pos.Size)
 	}
@@ -209,7 +212,7 @@ func ReplayScans(scans []*FileScan) (*Replayed, error) {
 		rp.Unsealed += len(p)
 	}
 	for _, r := range rp.Live {
-		rp.LiveBytes += int64(r.Pos.Size)
+		rp.LiveBytes += r.Frame
 	}
 	return rp, nil
 }
